@@ -67,13 +67,17 @@ def run_case(ctx, kind, rng, idx):
     for cname in CONT:
         Tin = mc.to_container(T, cname, rng)
         pops = pi.copy() if give_pops else None
-        fz = Frozen(Tin, pops, src, snk)
+        if give_pops and idx % 5 == 0:
+            pops = pi.tolist()            # a plain list of populations
+        fmt = [list, tuple, np.array][idx % 3]
+        src_a, snk_a = fmt(src), fmt(snk)
+        fz = Frozen(Tin, pops, src_a, snk_a)
         out = {}
         for nm, fn in (('flux', tpt.reactive_fluxes),
                        ('net', tpt.net_fluxes),
                        ('rpop', tpt.reactive_populations)):
             try:
-                out[nm] = fn(Tin, src, snk, populations=pops)
+                out[nm] = fn(Tin, src_a, snk_a, populations=pops)
             except Exception as e:  # noqa
                 ctx.violation('%s.raised[%s]' % (nm, 'dense' if cname ==
                                                  'ndarray' else 'sparse'),
